@@ -111,9 +111,9 @@ func (p *parser) parseInfix(left ast.Expr, rbp oper.BP) ast.Expr {
 	for p.infixLbp(p.peek()) > rbp {
 		t := p.eat()
 		inf := p.mustInfix(t)
-		left = inf.led(p, inf.BP, left, t)
+		left = p.infixNCheck(inf.led(p, inf.BP, left, t))
 	}
-	return p.infixNCheck(left)
+	return left
 }
 
 func (p *parser) infixNCheck(expr ast.Expr) ast.Expr {
